@@ -243,3 +243,88 @@ def _operand_valid(body, o, bi, validated):
             return True, "validated by is_valid_*"
     calls = {x[1].rsplit("::", 1)[-1] for x in sr if x[0] == "call"}
     return False, "from %s" % sorted(map(str, sr))[:4]
+
+
+def clamp_post(ck, F, rule="SEL-REPAIR"):
+    """The repair itself is right: in UserModel::clamp_selected_sheet every view leaves the loop body with
+    view.sheet < sheet_count -- on the path that does not rewrite view.sheet the zone state (after the guard) entails
+    it, and the value written on the other path is sheet_count - 1 (saturating)."""
+    from effects import Program
+    import zones
+    from mir import op_place, place_proj
+    VIEW = "ironcalc_base::types::WorkbookView"
+    b = ck.need(F.one, "UserModel::clamp_selected_sheet")
+    P = Program(F)
+    A = zones.Analysis(b, P, F)
+    stores = []
+    for bi, si, s in b.stmts():
+        if place_proj(s["p"]):
+            rp = b.resolve_place(s["p"], through_named=True)
+            fs = [e for e in place_proj(rp) if e[0] == "f"]
+            if fs and fs[-1][2] == "sheet" and "View" in str(fs[-1][3]):
+                stores.append((bi, si, s))
+    ck.ob(rule, "clamp_selected_sheet|stores", len(stores) >= 1, "clamp_selected_sheet never writes a view's sheet (anchor lost?)", b.file, b.line)
+    n = 0
+    for (sb, ssi, s) in stores:
+        # the guard: nearest dominating bool switch comparing a view's sheet
+        guard = None
+        for d in sorted(b.dominators_of(sb), reverse=True):
+            t = b.term(d)
+            if t["k"] == "switch" and t["ty"] == "bool" and d != sb:
+                c = A._cmp_of(d, t["o"])
+                if c is None:
+                    continue
+                ok = False
+                for o in (c[1], c[2]):
+                    p = op_place(o)
+                    if p is None:
+                        continue
+                    tr = b.trace(o)
+                    pl = tr.get("place") if tr["kind"] == "place" else None
+                    if pl is not None and [e for e in place_proj(pl) if e[0] == "f" and e[2] == "sheet"]:
+                        ok = True
+                if ok:
+                    guard = (d, t, c)
+                    break
+        f, l = b.loc(sb, ssi)
+        if guard is None:
+            ck.ob(rule, "clamp_selected_sheet|guard", False, "the store to view.sheet is not guarded by a comparison of view.sheet", f, l)
+            continue
+        d, t, c = guard
+        zero = [x for v, x in t["targets"] if v == "0"]
+        edges = [t["otherwise"]] + zero
+        skip = [e for e in edges if not b.dominates(e, sb)]
+        n += 1
+        ok = bool(skip)
+        for e in skip:
+            for kk, z in A.pstate_in.get(e, {}).items():
+                if z.bottom:
+                    continue
+                # view.sheet < count on the untouched path: find the two operand terms in this state
+                la, lb = A.lin(z, c[1], c[3]), A.lin(z, c[2], c[3])
+                if la is None or lb is None:
+                    ok = False
+                    continue
+                # which operand is the view's sheet?
+                tr = b.trace(c[1])
+                sheet_first = tr["kind"] == "place" and [x for x in place_proj(tr["place"]) if x[0] == "f" and x[2] == "sheet"]
+                (x, cx), (y, cy) = (la, lb) if sheet_first else (lb, la)
+                if not z.entails(x, y, cy - cx - 1):
+                    ok = False
+        ck.ob(rule, "clamp_selected_sheet|untouched views already satisfy sheet < count", ok,
+              "clamp_selected_sheet leaves a view untouched on a path where view.sheet < number of sheets is not established (the guard "
+              "is off by one): after a deletion the selected sheet can be the first index that does not exist", *b.loc(d))
+        # the written value
+        sr = A.states_at(sb)
+        wok = False
+        v = s["rv"].get("o")
+        if v is not None and sr:
+            tr = b.trace(v)
+            if tr["kind"] == "call" and (b.callee_q(tr["t"]) or "").endswith("saturating_sub") and const_int_(tr["t"]["args"][1]) == 1:
+                wok = True
+        ck.ob(rule, "clamp_selected_sheet|written value is count - 1", wok, "the clamped value is not `sheet_count.saturating_sub(1)`", f, l)
+
+
+def const_int_(o):
+    from mir import const_int
+    return const_int(o)
